@@ -24,9 +24,11 @@ package meta
 //@   requires m != nil && wfMeta(m)
 //@   assigns [C20] nothing
 //@ func (*Meta).GetNode
+//@   inline
 //@   requires m != nil
 //@   assigns [C20] nothing
 //@ func (*Meta).Iter
+//@   inline
 //@   requires m != nil
 //@   assigns [C20] nothing
 //@ func (*Meta).Iter$1
@@ -45,6 +47,7 @@ package meta
 //@   loop 0: invariant 0 <= k && k <= len(keys)
 //@           decreases len(keys) - k
 //@ func (*Meta).ReadOnly
+//@   inline
 //@   assigns [C20] nothing
 //@ func (*Meta).Clone
 //@   requires m != nil
